@@ -25,7 +25,7 @@ def sumw(Ki, Ko, ar):
     return P.Parameter.from_input(P.ConstantParameter(Ko, Ki * ar, value=1.0))
 
 
-def random_dag(rng, vars_, n_inner, K=1, bias_valid=0.5, input_factory=None):
+def random_dag(rng, vars_, n_inner, K=1, bias_valid=0.5, input_factory=None, consts=False):
     """arbitrary DAG of sum/hadamard/kronecker layers over univariate inputs: smoothness and decomposability
     are NOT enforced (bias_valid = probability of choosing inputs that keep the layer valid)"""
     layers, ins = [], {}
@@ -35,7 +35,7 @@ def random_dag(rng, vars_, n_inner, K=1, bias_valid=0.5, input_factory=None):
             l = emb(v, K) if input_factory is None else input_factory(v, K)
             layers.append(l)
             scopes[l] = frozenset([v])
-    if rng.random() < 0.3 and input_factory is None:  # a constant (empty-scope) layer
+    if rng.random() < 0.3 and (input_factory is None or consts):  # a constant (empty-scope) layer
         l = L.ConstantValueLayer(K, value=P.Parameter.from_input(P.ConstantParameter(K, value=1.0)))
         layers.append(l)
         scopes[l] = frozenset()
@@ -126,20 +126,36 @@ def preds(sc):
     return [int(sc.is_smooth), int(sc.is_decomposable), int(sc.is_structured_decomposable)]
 
 
+def own_scopes(sc):
+    """bottom-up scopes recomputed here from the input layers alone (union over the inputs of every inner layer): the oracle must
+    not rely on Circuit.layer_scope, which is part of what the property examines"""
+    sco = {}
+    for l in sc.topological_ordering():
+        if isinstance(l, L.InputLayer):
+            sco[l] = frozenset(l.scope._set)
+        else:
+            u = frozenset()
+            for i in sc.layer_inputs(l):
+                u = u | sco[i]
+            sco[l] = u
+    return sco
+
+
 def spec_preds(sc):
     """independent set-based recomputation (the definitions in the property)"""
-    smooth = all(sc.layer_scope(s)._set == sc.layer_scope(i)._set for s in sc.sum_layers for i in sc.layer_inputs(s))
-    dec = all(not (sc.layer_scope(a)._set & sc.layer_scope(b)._set)
-              for p in sc.product_layers for a, b in itertools.combinations(sc.layer_inputs(p), 2))
+    sco = own_scopes(sc)
+    smooth = all(sco[s] == sco[i] for s in sc.sum_layers for i in sc.layer_inputs(s))
+    dec = all(not (sco[a] & sco[b]) for p in sc.product_layers for a, b in itertools.combinations(sc.layer_inputs(p), 2))
     return smooth, dec
 
 
 def splits(sc):
     out = {}
+    sco = own_scopes(sc)
     for p in sc.product_layers:
-        fs = frozenset(frozenset(sc.layer_scope(i)._set) for i in sc.layer_inputs(p) if sc.layer_scope(i)._set)
-        if len(fs) > 1 or sum(1 for i in sc.layer_inputs(p) if sc.layer_scope(i)._set) > 1:
-            out.setdefault(frozenset(sc.layer_scope(p)._set), set()).add(fs)
+        fs = frozenset(sco[i] for i in sc.layer_inputs(p) if sco[i])
+        if len(fs) > 1 or sum(1 for i in sc.layer_inputs(p) if sco[i]) > 1:
+            out.setdefault(sco[p], set()).add(fs)
     return out
 
 
@@ -234,7 +250,8 @@ def one_case(rep, cs, seed, i, exhaustive_spec=None):
             rep.violation("perm-dependence-compatible", "compatibility changed when a product's inputs were listed in another order",
                           {"case": desc, "a~b": [cab, int(are_compatible(a2, b))], "a~a": [caa, int(are_compatible(a, a2))]})
     # renaming of variables (same injective map on both circuits)
-    allv = sorted(a.scope._set | b.scope._set)
+    # all variables of the input layers (not Circuit.scope: the check must not depend on the scope computation it examines)
+    allv = sorted({v for c_ in (a, b) for l_ in c_.layers if isinstance(l_, L.InputLayer) for v in l_.scope._set})
     img = rng.sample(range(0, 40), len(allv))
     r = dict(zip(allv, img))
     ra, rb = rename(a, r), rename(b, r)
